@@ -38,13 +38,13 @@ impl World {
         World { t: VPeerTracker::new(), ids: ids[..np].to_vec(), nc, tags: (1..=nt as u32).collect() }
     }
 
-    /// [k, conn-mask, trusted, archival, kind, tag-mask] per peer (kind 4 = light announced by celestia-node -> 3)
-    fn views(&self) -> Vec<[u64; 6]> {
+    /// [k, conn-mask, trusted, archival, kind, tag-mask, old (disconnection older than gc's limit)] per peer (kind 4 = light announced by celestia-node -> 3)
+    fn views(&self) -> Vec<[u64; 7]> {
         self.ids
             .iter()
             .enumerate()
             .map(|(i, id)| match self.t.peer(id, &self.tags) {
-                None => [0; 6],
+                None => [0; 7],
                 Some(v) => {
                     let p = i + 1;
                     let mut cm = 0u64;
@@ -60,7 +60,7 @@ impl World {
                     assert_eq!(v.connected, cm != 0);
                     assert_eq!(v.protected, tm != 0);
                     assert_eq!(v.full, v.kind == 1 || v.kind == 2);
-                    [1, cm, v.trusted as u64, v.archival as u64, v.kind as u64, tm]
+                    [1, cm, v.trusted as u64, v.archival as u64, v.kind as u64, tm, self.t.is_expired(id) as u64]
                 }
             })
             .collect()
@@ -113,12 +113,14 @@ impl World {
                 self.t.gc();
                 vec![]
             }
+            // environment: the peer's disconnection becomes 121 s older (gc's limit is 120 s)
+            "age" => vec![self.t.age_disconnected(&id, std::time::Duration::from_secs(121)) as u64],
             other => h_common::tool_error(&format!("unknown op {other}")),
         }
     }
 
     /// Drive the tracker into the state `pre` (one canonical event sequence per state).
-    fn construct(&mut self, pre: &[[u64; 6]]) {
+    fn construct(&mut self, pre: &[[u64; 7]]) {
         for (i, s) in pre.iter().enumerate() {
             let p = i + 1;
             if s[0] == 0 {
@@ -144,11 +146,14 @@ impl World {
                     self.apply("protect", p, t as u64);
                 }
             }
+            if s[6] == 1 {
+                self.apply("age", p, 0);
+            }
         }
     }
 }
 
-fn recount(views: &[[u64; 6]]) -> [u64; 4] {
+fn recount(views: &[[u64; 7]]) -> [u64; 4] {
     let mut r = [0u64; 4];
     for v in views {
         if v[0] == 1 && v[1] != 0 {
@@ -162,7 +167,14 @@ fn recount(views: &[[u64; 6]]) -> [u64; 4] {
 }
 
 /// The three clauses of C39 on real observations: `Some((kind, why))` when one is broken.
-fn statement_monitor(op: &str, pre: &[[u64; 6]], post: &[[u64; 6]], published: [u64; 4], info: [u64; 4], pcount: &[u64]) -> Option<(&'static str, String)> {
+fn statement_monitor(op: &str, pre: &[[u64; 7]], post: &[[u64; 7]], published: [u64; 4], info: [u64; 4], pcount: &[u64]) -> Option<(&'static str, String)> {
+    if op == "gc" {
+        for (i, v) in pre.iter().enumerate() {
+            if v[0] == 1 && (v[1] != 0 || v[5] != 0) && post[i][0] == 0 {
+                return Some(("gc-forgot", format!("gc forgot peer {} which was {}", i + 1, if v[1] != 0 { "connected" } else { "protected" })));
+            }
+        }
+    }
     let rc = recount(post);
     if published != rc || info != rc {
         return Some(("info", format!("published {published:?} / info() {info:?} but a recount of the tracked peers gives {rc:?}")));
@@ -173,24 +185,17 @@ fn statement_monitor(op: &str, pre: &[[u64; 6]], post: &[[u64; 6]], published: [
             return Some(("tag-count", format!("protected_len({}) = {n} but {have} peers are protected with that tag", ti + 1)));
         }
     }
-    if op == "gc" {
-        for (i, v) in pre.iter().enumerate() {
-            if v[0] == 1 && (v[1] != 0 || v[5] != 0) && post[i][0] == 0 {
-                return Some(("gc-forgot", format!("gc forgot peer {} which was {}", i + 1, if v[1] != 0 { "connected" } else { "protected" })));
-            }
-        }
-    }
     None
 }
 
-fn arr6(v: &Value) -> Vec<[u64; 6]> {
+fn arr7(v: &Value) -> Vec<[u64; 7]> {
     v.as_array()
         .unwrap()
         .iter()
         .map(|a| {
             let a = a.as_array().unwrap();
-            let mut r = [0u64; 6];
-            for i in 0..6 {
+            let mut r = [0u64; 7];
+            for i in 0..7 {
                 r[i] = a[i].as_u64().unwrap();
             }
             r
@@ -208,8 +213,8 @@ pub fn replay(args: &Args) -> Summary {
     let nt = args.opt_u64("nt", 2) as usize;
     let ids: Vec<PeerId> = (0..16).map(|_| PeerId::random()).collect();
     for case in &cases {
-        let pre = arr6(&case["pre"]);
-        let post_m = arr6(&case["post"]);
+        let pre = arr7(&case["pre"]);
+        let post_m = arr7(&case["post"]);
         let op = case["op"].as_str().unwrap();
         let p = case["p"].as_u64().unwrap() as usize;
         let x = case["x"].as_u64().unwrap();
@@ -285,7 +290,8 @@ pub fn record(args: &Args) -> Summary {
                 11 | 12 => ("on_agent_version", rng.below(5)),
                 13 | 14 => ("mark_as_archival", 0),
                 15 => ("on_ping", 1 + rng.below(nc as u64)),
-                16 | 17 => ("gc", 0),
+                16 => ("gc", 0),
+                17 => ("age", 0),
                 _ => ("remove_connection", 1 + rng.below(nc as u64)),
             };
             let pre = w.views();
